@@ -74,7 +74,9 @@ RULE = ("case = configuration (bus with/without modify_data, 1-2 nodes each as L
         "length over a small alphabet per producer, every subset of started maps x disconnect order. Oracle: "
         "reference model (ref_c17) of the expected live transmissions, compared as a multiset (bus, id, payload, "
         "remote, period) with the recording bus after every call, plus a no-overlap probe at registration "
-        "time. Non-trivial = history containing a restart without stop, a data/state update while running, a "
+        "time. sync.cob_id may be changed between calls (the next start() must use it; a task already running "
+        "may carry either id until then); PDO COB-IDs include 0x7FF/0x800 (frame format is compared). "
+        "Non-trivial = history containing a restart without stop, a data/state update while running, a "
         "set-to-zero while running or a disconnect with live PDO tasks; distinct = canonical JSON of the case.")
 ASSUMPTIONS = [
     "a cyclic task transmits the frame contents handed to send_periodic()/modify_data() at that time (adapter "
@@ -232,6 +234,8 @@ class Rig:
                 self.net[op["net"]].sync.start(op["p"])
         elif k == "sync_stop":
             self.net[op["net"]].sync.stop()
+        elif k == "sync_cob":
+            self.net[op["net"]].sync.cob_id = op["cob"]
         elif k.startswith("pdo_"):
             self._pdo(k, op)
         elif k == "l_state":
@@ -322,7 +326,8 @@ def compare(model, live, tag):
         net, cid, data, remote, ext, period = lt
         hit = None
         for i, e in enumerate(exp):
-            if (not used[i] and e.net == net and e.can_id == cid and e.data == data and e.remote == remote
+            if (not used[i] and e.net == net and (e.can_id == cid or cid in e.alt) and e.data == data
+                    and e.remote == remote
                     and ext == (cid > 0x7FF) and _close(period, e.period)):
                 hit = i
                 break
@@ -453,8 +458,12 @@ def _sequences(alphabet, max_len):
         yield from rec([], n)
 
 
+SYNC_COBS = (0x80, 0x90, 0x100, 0x7F0)      # none of them is a PDO / heartbeat / guarding id of any case
+
+
 def enum_sync(max_len):
-    alpha = [{"op": "sync_start", "net": "M", "p": 0.1}, {"op": "sync_start", "net": "M", "p": 2},
+    alpha = [{"op": "sync_cob", "net": "M", "cob": 0x90},
+             {"op": "sync_start", "net": "M", "p": 0.1}, {"op": "sync_start", "net": "M", "p": 2},
              {"op": "sync_start", "net": "M", "p": None}, {"op": "sync_stop", "net": "M"},
              {"op": "sync_start", "net": "M", "p": 0}]
     for mod in (True, False):
@@ -493,7 +502,8 @@ def enum_pdo(max_len):
                      {"op": "pdo_write", "var": 0, "v": 0, **a}]
                 d1, d2 = bytes([9, 8, 7]), bytes([0xAA, 0, 0x55])
             else:
-                m = {"no": 2, "cob": 0x1ABCDE01, "setup": "direct", "entries": [E(U8, 3), E(I16), E(I8, 5)]}
+                m = {"no": 2, "cob": 0x1ABCDE01 if mod else 0x7FF, "setup": "direct",
+                     "entries": [E(U8, 3), E(I16), E(I8, 5)]}
                 node = {"id": 0x7F, "hb": 0, "rpdo": [m]}
                 a = {"side": "R", "node": 0x7F, "map": 2}
                 w = [{"op": "pdo_write", "var": 0, "v": 5, **a}, {"op": "pdo_write", "var": 1, "v": -2, **a},
@@ -640,7 +650,8 @@ def config(draw):
     mod = draw(st.booleans())
     ids = draw(st.lists(st.integers(1, 127), min_size=1, max_size=2, unique=True))
     n_maps = 4 * len(ids)
-    cobs = draw(st.lists(st.one_of(st.integers(0x181, 0x57F), st.integers(0x800, 0x1FFFFFFF)),
+    cobs = draw(st.lists(st.one_of(st.integers(0x181, 0x57F), st.integers(0x800, 0x1FFFFFFF),
+                                   st.sampled_from([0x780, 0x7FE, 0x7FF, 0x800])),
                          min_size=n_maps, max_size=n_maps, unique=True))
     nodes = []
     for nid in ids:
@@ -673,7 +684,7 @@ def _kinds(model, cfg, late=True):
                 k.append(("disconnect", net))
             if model.sync[net]["running"] is None:
                 k.append(("sync_start0", net))
-        k += [("sync_stop", net)] * 2
+        k += [("sync_stop", net)] * 2 + [("sync_cob", net)]
     if model.pdo:
         k += [("pdo", None)] * 22
     if model.connected["S"]:
@@ -766,6 +777,8 @@ def history(draw, max_ops):
             op = {"op": "sync_start", "net": net, "p": 0}
         elif kind == "sync_stop":
             op = {"op": "sync_stop", "net": net}
+        elif kind == "sync_cob":
+            op = {"op": "sync_cob", "net": net, "cob": pick(draw, SYNC_COBS)}
         elif kind == "disconnect":
             op = {"op": "disconnect", "net": net}
         elif kind == "pdo":
